@@ -12,6 +12,7 @@ import (
 	"github.com/samsarahq/thunder/graphql"
 	"github.com/samsarahq/thunder/graphql/schemabuilder"
 	"vrt/rt"
+	"vrt/vchan"
 )
 
 type User struct {
@@ -175,7 +176,17 @@ func Build(d *Data, a Assignment, service string) *schemabuilder.Schema {
 		q.FieldFunc("devices", func() []*Device { return d.Devices })
 	}
 	if !mono && a["boom"] == service {
-		q.FieldFunc("boom", func() (int64, error) { return 0, fmt.Errorf("boom") })
+		q.FieldFunc("boom", func() (int64, error) {
+			rt.Yield() // fails after its siblings may have started
+			return 0, fmt.Errorf("boom")
+		})
+	}
+	if !mono && a["hang"] == service {
+		// blocks until its context ends (a slow backend call that honours cancellation)
+		q.FieldFunc("hang", func(ctx context.Context) (int64, error) {
+			vchan.RecvExternal(ctx.Done())
+			return 0, ctx.Err()
+		})
 	}
 	if has("admins") {
 		q.FieldFunc("admins", func() []*Admin { return d.Admins })
